@@ -49,12 +49,13 @@ def run_fixed(cases, oracle=True):
 def key_of(h, v):
     """Finding key: <check>@<op kind>:<ok|err> - which oracle failed, after which kind of operation, and whether that operation
     raised.  The exception class is deliberately not part of the key (one missing undo shows up with several exception classes);
-    checks at dump points are keyed <check>@dump, reads that raise AssertionError c10-read-assertion@read:err."""
+    checks at dump points are keyed <check>@<commit|rollback|newsession>, reads that raise AssertionError c10-read-assertion@read:err."""
     i = v['op_index']
     op = h['ops'][i] if i < len(h['ops']) else ['final']
     r = h['results'][i] if i < len(h['results']) else ['ok']
-    if v['check'].startswith('c09-') or v['check'].startswith('c14-duplicate') or v['check'] == 'c14-failed-commit-changed-db': return v['check'] + '@dump'
-    if v['check'] == 'c10-read-assertion': return v['check'] + '@read:err'
+    if v['check'].startswith('c09-') or v['check'].startswith('c14-duplicate') or v['check'] == 'c14-failed-commit-changed-db':
+        return '%s@%s' % (v['check'], 'newsession' if op[0] == 'final' else op[0])       # dump points: commit / rollback / newsession (= end of history)
+    if v['check'].startswith('c10-read-assertion'): return v['check'] + '@read:err'
     return '%s@%s:%s' % (v['check'], op[0], 'err' if r[0] == 'err' else 'ok')
 
 
